@@ -26,17 +26,70 @@ NAMES = {'str': lambda i: 's%d' % i, 'tup': lambda i: (i, 'x'), 'spaced': lambda
 
 
 def scope(tier, seed):
+    hist = ('histories: every sequence of %d operations (compute_SCCs, add_edge over all pairs, add_node, '
+            'edges to/from a new node) ending in compute_SCCs, from 7 initial graphs, on one graph object '
+            'against a set model' % (4 if tier == 'quick' else 5))
     if tier == 'quick':
-        return {'n<=3': 'all 530 digraphs x all n! insertion orders x all n! renamings + 3 naming '
+        return {'histories': hist, 'n<=3': 'all 530 digraphs x all n! insertion orders x all n! renamings + 3 naming '
                         'schemes + every successor-order assignment',
                 'n=4': 'all 65536 digraphs x all 24 insertion orders; every successor-order '
                        'assignment of the digraphs in block %d of 8 (block = top 3 bits of mask*0x9E3779B1 mod 2^32)' % (seed % 8)}
-    return {'n<=3': 'as quick', 'n=4': 'all 65536 digraphs x all 24 insertion orders, and every '
+    return {'histories': hist, 'n<=3': 'as quick', 'n=4': 'all 65536 digraphs x all 24 insertion orders, and every '
             'successor-order assignment (17.8M)', 'n=5': 'all 33,554,432 digraphs, default order'}
+
+
+def hist_ops(n):
+    ops = [('scc',)]
+    for a in range(n):
+        for b in range(n):
+            ops.append(('add_edge', a, b))
+    ops.append(('add_node', n))
+    ops.append(('add_edge', n, 0))
+    ops.append(('add_edge', 1, n))
+    return ops
+
+
+def run_hist(n, init, hist, acc):
+    """Operation history on ONE graph object: mutators and compute_SCCs, against a set model."""
+    G = DiGraph(V=list(range(n)), E=list(init))
+    V = set(range(n))
+    E = set(init)
+    for step, op in enumerate(hist):
+        if op[0] == 'scc':
+            res = call(lambda: [list(c) for c in compute_SCCs(G)])
+            m = max(V) + 1
+            refc = set(c for c in ref_classes(m, sorted(E)) if c <= V)
+            acc.add('transitions')
+            bad = res[0] != 'ok'
+            if not bad:
+                flat = [x for c in res[1] for x in c]
+                bad = sorted(flat) != sorted(V) or set(frozenset(c) for c in res[1]) != refc
+            if bad:
+                acc.violation('wrong-components-in-history',
+                              {'n': n, 'init': [list(e) for e in init], 'history': [list(o) for o in hist],
+                               'step': step}, sorted(sorted(c) for c in refc), res[1:])
+                return False
+        elif op[0] == 'add_edge':
+            if (op[1], op[2]) in E:
+                continue
+            r = call(G.add_edge, op[1], op[2])
+            if r[0] != 'ok':
+                return True
+            E.add((op[1], op[2]))
+            V.add(op[1])
+            V.add(op[2])
+        else:
+            if op[1] in V:
+                continue
+            call(G.add_node, op[1])
+            V.add(op[1])
+    return True
 
 
 def plan(tier, seed):
     sh = [['small']]
+    for i in range(12):
+        sh.append(['hist', i, 12, 4 if tier == 'quick' else 5])
     if tier == 'quick':
         for lo, hi in chunks(65536, 1024):
             sh.append(['n4', lo, hi, 'all'])
@@ -122,6 +175,27 @@ def run_shard(shard, tier, seed, acc):
         acc.sample({'n': 3, 'edges': [[0, 1], [1, 0], [1, 2]], 'insertion_order': [2, 0, 1],
                     'renaming': [1, 2, 0]})
         return
+    if kind == 'hist':
+        inits = [(3, ()), (3, ((0, 1),)), (3, ((0, 1), (1, 2))), (3, ((0, 1), (1, 0))), (2, ((0, 1),)),
+                 (3, ((0, 1), (1, 2), (2, 1))), (3, ((0, 0), (1, 2)))]
+        depth = shard[3]
+        cnt = 0
+        for n, init in inits:
+            ops = hist_ops(n)
+            for hist in itertools.product(ops, repeat=depth):
+                # every history must query at least once after a mutation to be informative
+                cnt += 1
+                if cnt % shard[2] != shard[1]:
+                    continue
+                if hist[-1][0] != 'scc':
+                    continue
+                if cnt % 4096 == shard[1] and deadline_passed():
+                    acc.capped()
+                    return
+                run_hist(n, init, hist, acc)
+                acc.ev(1, 1 if any(o[0] == 'scc' for o in hist[:-1]) else 0)
+        acc.sample({'init': [[0, 1], [1, 2]], 'history': [['scc'], ['add_edge', 2, 0], ['scc']]})
+        return
     if kind == 'n4':
         if shard[3] == 'few':
             orders = [[0, 1, 2, 3], [3, 2, 1, 0], [1, 2, 3, 0], [2, 3, 0, 1], [3, 0, 1, 2]]
@@ -164,6 +238,10 @@ def run_shard(shard, tier, seed, acc):
 def replay(art):
     from ..runner import Acc
     c = art['case']
+    if 'history' in c:
+        acc = Acc()
+        run_hist(c['n'], [tuple(e) for e in c['init']], [tuple(o) for o in c['history']], acc)
+        return {'violates': acc.d['nviol'] > 0, 'detail': acc.d['violations'][:1]}
     names = c['names']
     n = c['n']
     edges = [tuple(e) for e in c['edges']]
